@@ -24,7 +24,7 @@ var Leaves = []reflect.Type{
 // Statics are the hand-written struct types (embedding, tags, recursion).
 var Statics = []reflect.Type{
 	T[EmbedVal](), T[EmbedPtr](), T[EmbedUnexpVal](), T[EmbedUnexpPtr](), T[EmbedConflict](), T[EmbedAmbiguous](), T[EmbedTaggedWins](), T[EmbedDeep](),
-	T[EmbedMarshaler](), T[EmbedTextMarshalerPtr](), T[EmbedNonStruct](), T[EmbedPtrNonStruct](), T[EmbedIface](), T[EmbedTwoPtr](), T[EmbedTagDepths](), T[DupTagDirect](), T[DupTagEmbedded](), T[NonASCIIKeys](), T[AddrMapThenSlice](), T[AddrSliceThenMap](), T[EmbedUnexpNonStructTagged](), T[MutRoot](), T[MutA](), T[RecEmbA](), T[RecEmbE](), T[InvTagEmbedded](), T[InvTagSame](), T[InvTagDom](), T[AmbT](), T[AmbU](), T[EmbedPtrOmit](), T[Tags](), T[CaseFields](), T[Recursive](), T[Deep](),
+	T[EmbedMarshaler](), T[EmbedTextMarshalerPtr](), T[EmbedNonStruct](), T[EmbedPtrNonStruct](), T[EmbedIface](), T[EmbedTwoPtr](), T[EmbedTagDepths](), T[DupTagDirect](), T[DupTagEmbedded](), T[NonASCIIKeys](), T[AddrMapThenSlice](), T[AddrSliceThenMap](), T[EmbedUnexpNonStructTagged](), T[MutRoot](), T[MutA](), T[RecEmbA](), T[RecEmbE](), T[InvTagEmbedded](), T[InvTagSame](), T[InvTagDom](), T[AmbT](), T[AmbU](), T[EmbedPtrOmit](), T[Tags](), T[StringOpts](), T[CaseFields](), T[Recursive](), T[Deep](),
 }
 
 var mapKeys = []reflect.Type{T[string](), T[NamedString](), T[int](), T[int8](), T[uint64](), T[KeyT](), T[KeyPT](), T[bool](), T[float64](), T[VTInt](), T[VTString](), T[KeyMTOnly](), T[time.Duration](), T[VMInt](), T[PMInt](), reflect.PointerTo(T[KeyPT]()), reflect.PointerTo(T[KeyT]()), T[KeyNaN]()}
@@ -314,6 +314,27 @@ func Domain(t reflect.Type, depth int) []reflect.Value {
 			return m
 		}
 		out = append(out, mk(2, 0), zero, reflect.MakeMap(t), mk(1, 1), mk(len(kd), 0))
+		if k := t.Key().Kind(); k >= reflect.Int && k <= reflect.Uintptr {
+			// keys whose decimal texts sort differently from their values (neighbours of equal width and sign,
+			// widths that differ by one, both signs)
+			m := reflect.MakeMap(t)
+			for i, x := range []int64{-13, -12, -2, -1, 9, 10, 11, -100, -99, 100, 99, 2, 1} {
+				kv := reflect.New(t.Key()).Elem()
+				if k <= reflect.Int64 {
+					if kv.OverflowInt(x) {
+						continue
+					}
+					kv.SetInt(x)
+				} else {
+					if x < 0 || kv.OverflowUint(uint64(x)) {
+						continue
+					}
+					kv.SetUint(uint64(x))
+				}
+				m.SetMapIndex(kv, ed[i%len(ed)])
+			}
+			out = append(out, m)
+		}
 		for j := 2; j < len(ed) && j < 6; j++ {
 			out = append(out, mk(1, j))
 		}
